@@ -797,44 +797,37 @@ def batch_frame_oracle(ctx, rng, workdir, rounds):
     the failed item must leave no trace in what the later commit writes."""
     n = 0
     for _ in range(rounds):
-        eng = fresh_engine(workdir)
-        try:
-            spec = base_objects(rng, rng.choice(list(TYPES)))
-            sens_case = rng.random() < 0.35
-            if sens_case:
-                spec[0]['sens'] = True
-            name = rng.choice(CHANGEABLE)
-            v2 = rng.random() < 0.5
-            ver = V2 if v2 else (rng.choice(V1) if not sens_case else (1, 4))
-            if sens_case:
-                # the overwrite rule refuses to clear a set Sensitive flag: the refusal must not leave the flag cleared in the
-                # session that the next item commits
-                bad = ({'form': rng.choice(['set', 'mod']), 'new': ['Sensitive', ['B', False]]} if v2
-                       else {'form': 'mod', 'attr': ['Sensitive', None, ['B', False]]})
-                good = {'form': 'del', 'ref': 'Object Group'} if v2 else {'form': 'mod', 'attr': ['Object Group', 0, ['T', 'q']]}
-            elif v2:
-                bad = rng.choice([
-                    {'form': 'mod', 'new': [name, value_for(name, rng)], 'cur': ['T', 'zz'] if name in ('Name', 'Object Group') else (['A', 'z', 'z'] if name != 'Sensitive' else ['B', True])},
-                    {'form': 'del', 'cur': [name, ['T', 'zz'] if name != 'Application Specific Information' else ['A', 'z', 'z']]},
-                    {'form': 'set', 'new': [name if name != 'Sensitive' else 'Name', value_for(name if name != 'Sensitive' else 'Name', rng)]}])
-                good = {'form': 'del', 'ref': 'Object Group'}
-            else:
-                bad = rng.choice([{'form': 'mod', 'attr': [name, 9, value_for(name, rng)]},
-                                  {'form': 'del', 'name': name, 'idx': 9},
-                                  {'form': 'mod', 'attr': ['State', None, ['I', 2]]},
-                                  {'form': 'del', 'name': 'Cryptographic Usage Mask', 'idx': None}])
-                good = {'form': 'mod', 'attr': ['Object Group', 0, ['T', 'q']]}
-            for s in (bad, good):
-                s.update({'k': 'attr', 'ver': ver, 'user': 'alice', 'uid': '1'})
-            eng.close()
-            eng = None
-            ok1, ok2 = run_batch(ctx, {'objects': spec, 'batch': [bad, good], 'version': list(ver)}, workdir)
-            ctx.count('batch.%s.%s' % ('ok' if ok1 else 'fail', 'ok' if ok2 else 'fail'))
-            n += 1
-            ctx.case_seen(('batch', json.dumps(bad, sort_keys=True), json.dumps(good, sort_keys=True), spec[0]['type']), nontrivial=not ok1 and ok2)
-        finally:
-            if eng is not None:
-                eng.close()
+        spec = base_objects(rng, rng.choice(list(TYPES)))
+        sens_case = rng.random() < 0.35
+        if sens_case:
+            spec[0]['sens'] = True
+        name = rng.choice(CHANGEABLE)
+        v2 = rng.random() < 0.5
+        ver = V2 if v2 else (rng.choice(V1) if not sens_case else (1, 4))
+        if sens_case:
+            # the overwrite rule refuses to clear a set Sensitive flag: the refusal must not leave the flag cleared in the
+            # session that the next item commits
+            bad = ({'form': rng.choice(['set', 'mod']), 'new': ['Sensitive', ['B', False]]} if v2
+                   else {'form': 'mod', 'attr': ['Sensitive', None, ['B', False]]})
+            good = {'form': 'del', 'ref': 'Object Group'} if v2 else {'form': 'mod', 'attr': ['Object Group', 0, ['T', 'q']]}
+        elif v2:
+            bad = rng.choice([
+                {'form': 'mod', 'new': [name, value_for(name, rng)], 'cur': ['T', 'zz'] if name in ('Name', 'Object Group') else (['A', 'z', 'z'] if name != 'Sensitive' else ['B', True])},
+                {'form': 'del', 'cur': [name, ['T', 'zz'] if name != 'Application Specific Information' else ['A', 'z', 'z']]},
+                {'form': 'set', 'new': [name if name != 'Sensitive' else 'Name', value_for(name if name != 'Sensitive' else 'Name', rng)]}])
+            good = {'form': 'del', 'ref': 'Object Group'}
+        else:
+            bad = rng.choice([{'form': 'mod', 'attr': [name, 9, value_for(name, rng)]},
+                              {'form': 'del', 'name': name, 'idx': 9},
+                              {'form': 'mod', 'attr': ['State', None, ['I', 2]]},
+                              {'form': 'del', 'name': 'Cryptographic Usage Mask', 'idx': None}])
+            good = {'form': 'mod', 'attr': ['Object Group', 0, ['T', 'q']]}
+        for s in (bad, good):
+            s.update({'k': 'attr', 'ver': ver, 'user': 'alice', 'uid': '1'})
+        ok1, ok2 = run_batch(ctx, {'objects': spec, 'batch': [bad, good], 'version': list(ver)}, workdir)
+        ctx.count('batch.%s.%s' % ('ok' if ok1 else 'fail', 'ok' if ok2 else 'fail'))
+        n += 1
+        ctx.case_seen(('batch', json.dumps(bad, sort_keys=True), json.dumps(good, sort_keys=True), spec[0]['type']), nontrivial=not ok1 and ok2)
     return n
 
 
